@@ -277,7 +277,9 @@ pub fn gen_set(g: &mut Gen, length: f64, tp: &TrainParamSpec, tt: u8, o: &ChainO
             let a = g.usize(0, 9);
             (a, g.usize(a + 1, 10))
         };
-        let s = g.grid(2.0, 35.0, 66);
+        // a negative speed is a valid restriction whose magnitude is what gets enforced (the
+        // sign survives in the profile); 5 % of the restrictions carry one
+        let s = g.grid(2.0, 35.0, 66) * if g.bool(0.05) { -1.0 } else { 1.0 };
         let r = |c: usize| (length * c as f64 / 10.0 * 10.0).round() / 10.0;
         limits.push((r(a), r(b), s));
     }
